@@ -36,7 +36,7 @@ def _cases(draw):
                      "reload": draw(st.sampled_from([None, "systemctl reload a", "true", ""])), "safe": draw(st.booleans())})
     old = {}
     for p in PATHS:
-        old[p] = draw(st.sampled_from(["absent", "equal", "different", "different", "terminator", "empty", "trailing-blank", "blank-line"]))
+        old[p] = draw(st.sampled_from(["absent", "equal", "equal", "equal", "different", "different", "terminator", "empty", "trailing-blank", "blank-line"]))
     return {"gens": gens, "old": old, "reload": draw(st.sampled_from(["yes", "no", "force"])), "acl_safe": draw(st.booleans()),
             "soft": draw(st.sampled_from(["", "Cumulus Linux 5.4"]))}
 
